@@ -126,7 +126,7 @@ func (v *vocab) paramOp(g *Gen, recyclePM int) Op {
 	r := g.r
 	if len(v.headers) > 0 && r.Chance(400) {
 		h := pick(r, v.headers)
-		return Op{Kind: KHeader, Schema: js(h), Path: pick(r, []string{"X-A", "X-B"}), TVal: g.TypedFor(h, r.Chance(600)),
+		return Op{Kind: KHeader, Schema: js(h), Path: pick(r, []string{"X-A", "X-B", "X-A", "X-B", ""}), TVal: g.TypedFor(h, r.Chance(600)),
 			Recycle: r.Chance(recyclePM), OrderSeed: orderSeedFor(r)}
 	}
 	p := pick(r, v.params)
